@@ -49,7 +49,7 @@ var atoms = []ref.RuleAtom{
 	{Name: "exclusiveMaximum", Variant: "true"}, {Name: "exclusiveMaximum", Variant: "false"},
 	{Name: "precision"}, {Name: "minLength"}, {Name: "maxLength"}, {Name: "maxLength", Variant: "disordered"}, {Name: "regex"},
 	{Name: "minItems"}, {Name: "maxItems"}, {Name: "maxItems", Variant: "disordered"},
-	{Name: "additionalProperties"}, {Name: "allOf"}, {Name: "allOf", Variant: "empty-parent"}, {Name: "enum"}, {Name: "or"}, {Name: "or", Variant: "disordered-set"}, {Name: "or", Variant: "ordered-set"},
+	{Name: "additionalProperties"}, {Name: "allOf"}, {Name: "allOf", Variant: "empty-parent"}, {Name: "enum"}, {Name: "or"}, {Name: "or", Variant: "disordered-set"}, {Name: "or", Variant: "ordered-set"}, {Name: "or", Variant: "format-with-length-set"},
 	{Name: "type", Variant: "kind"}, {Name: "type", Variant: "any"}, {Name: "type", Variant: "ref"}, {Name: "type", Variant: "decimal"}, {Name: "type", Variant: "date"},
 	{Name: "optional", Variant: "true"}, {Name: "optional", Variant: "false"}, {Name: "nullable", Variant: "true"}, {Name: "nullable", Variant: "false"},
 	{Name: "const", Variant: "true"}, {Name: "const", Variant: "false"}, {Name: "foo"},
@@ -183,6 +183,8 @@ func build(c Case) (*ref.SNode, []ref.RuleAtom, bool) {
 					pair = []ref.SRule{gen.TokRule("minLength", "5"), gen.TokRule("maxLength", "1")}
 				}
 				r.Or = []ref.OrItem{{Rules: pair}, {Rules: []ref.SRule{gen.StrRule("type", kn)}}}
+			case "format-with-length-set": // an alternative rule set that puts a length rule next to a format type
+				r.Or = []ref.OrItem{{Rules: []ref.SRule{gen.StrRule("type", "email"), gen.TokRule("minLength", "3")}}, {Rules: []ref.SRule{gen.StrRule("type", kn)}}}
 			case "ordered-set":
 				pair := []ref.SRule{gen.TokRule("min", "1"), gen.TokRule("max", "5")}
 				if c.Kind == ref.NKInteger || c.Kind == ref.NKFloat {
@@ -367,6 +369,70 @@ func TestExhaustiveSmallSets(t *testing.T) {
 	}
 	run.LabelN("exhaustive-rule-sets", n)
 	run.Exhaustive(chk, fmt.Sprintf("every subset of size 1..%d of the %d rule atoms x %d node kinds x {root, object property} x all permutations", maxSize, len(atoms), len(kinds)))
+}
+
+// Every triple of rules that belong together (all numeric, all about strings, all about arrays,
+// all about objects), on the kinds they are about: the three-rule interactions (a flag whose
+// bound is missing next to another bound, a format type next to two length rules ...).
+func TestExhaustiveRelatedTriples(t *testing.T) {
+	run.SkipIfReplaying(t)
+	defer run.Done(t, chk)
+	generic := map[string]bool{"type": true, "const": true, "nullable": true, "optional": true, "or": true, "enum": true}
+	families := []struct {
+		names map[string]bool
+		kinds []ref.NodeKind
+	}{
+		{map[string]bool{"min": true, "max": true, "exclusiveMinimum": true, "exclusiveMaximum": true, "precision": true}, []ref.NodeKind{ref.NKInteger, ref.NKFloat}},
+		{map[string]bool{"minLength": true, "maxLength": true, "regex": true}, []ref.NodeKind{ref.NKString}},
+		{map[string]bool{"minItems": true, "maxItems": true}, []ref.NodeKind{ref.NKArray, ref.NKEmptyArray}},
+		{map[string]bool{"additionalProperties": true, "allOf": true}, []ref.NodeKind{ref.NKObject, ref.NKEmptyObject}},
+	}
+	shard, shards := run.Shard(), run.Shards()
+	var n int64
+	idx := 0
+	for _, fam := range families {
+		var pool []ref.RuleAtom
+		for _, a := range atoms {
+			if fam.names[a.Name] || generic[a.Name] {
+				pool = append(pool, a)
+			}
+		}
+		for _, k := range fam.kinds {
+			for _, isProp := range []bool{false, true} {
+				idx++
+				if idx%shards != shard {
+					continue
+				}
+				for i := 0; i < len(pool); i++ {
+					for j := i + 1; j < len(pool); j++ {
+						for l := j + 1; l < len(pool); l++ {
+							own := 0
+							for _, a := range []ref.RuleAtom{pool[i], pool[j], pool[l]} {
+								if fam.names[a.Name] {
+									own++
+								}
+							}
+							if own == 0 {
+								continue // three generic rules: covered per kind by the sampled larger sets
+							}
+							c := Case{Kind: k, IsProp: isProp, Rules: []ref.RuleAtom{pool[i], pool[j], pool[l]}}
+							if _, _, ok := build(c); !ok {
+								continue
+							}
+							checkAllOrders(t, c, true)
+							run.Eval(chk, true, key(c))
+							n++
+							if n%1999 == 0 {
+								run.Sample(chk, c)
+							}
+						}
+					}
+				}
+			}
+		}
+	}
+	run.LabelN("exhaustive-related-triples", n)
+	run.Exhaustive(chk, "every 3-subset of the rule atoms of one family (numeric bounds+flags+precision / string lengths+regex / item counts / object rules, each together with type, const, nullable, optional, or, enum atoms) on the node kinds of that family x {root, object property} x all 6 orders")
 }
 
 func TestRandomLargerSets(t *testing.T) {
